@@ -1,4 +1,5 @@
 import SpgProofs.Properties.C13
+import SpgProofs.Properties.C13b
 #print axioms Spg.C13.genChars_cases
 #print axioms Spg.C13.tryLoop_outcomes
 #print axioms Spg.C13.DepthLe_mono
@@ -21,3 +22,7 @@ import SpgProofs.Properties.C13
 #print axioms Spg.C13.sepCall_noZero
 #print axioms Spg.C13.body_noZero
 #print axioms Spg.C13.wl_generate_noZero
+#print axioms Spg.C13.total_pos_of_alphabet
+#print axioms Spg.C13.acceptable_of_no_requirements
+#print axioms Spg.C13.genChars_no_failRate_of_no_requirements
+#print axioms Spg.C13.acceptable_zero_tolerance_iff
